@@ -463,6 +463,10 @@ func TestC09Concurrent(t *testing.T) { rapid.Check(t, c09Concurrent) }
 // Scenario: fill N requests, complete a generated subset early (overflow or timeout), deliver everybody's final response
 // (in its four forms), then nothing may be registered any more and N new managed sends must succeed with ids 1..N.
 func c09ClosedEarly(rt *rapid.T) {
+	if !everyNth("c09ClosedEarly", 2, 20) {
+		return
+	}
+	defer noteFailure()
 	rec := stats.For("C09")
 	n := rapid.IntRange(1, 6).Draw(rt, "N")
 	maxPending := rapid.IntRange(1, 4).Draw(rt, "maxPending")
@@ -571,6 +575,10 @@ func TestC09ClosedEarly(t *testing.T) { rapid.Check(t, c09ClosedEarly) }
 // ping-pong), that send must never be refused. The responder runs on another goroutine, so the window between handing the
 // response to the request and giving the id back (if there were one) is open while the caller reacts.
 func c09PingPong(rt *rapid.T) {
+	if !everyNth("c09PingPong", 3, 30) {
+		return
+	}
+	defer noteFailure()
 	rec := stats.For("C09")
 	n := rapid.IntRange(1, 2).Draw(rt, "N")
 	iters := rapid.IntRange(200, 1500).Draw(rt, "iterations")
